@@ -6,13 +6,13 @@ IMPORTS = "Base Json Canon Sync SyncObs CorrC13 CorrC14 CorrC15"
 CASE_TYPE = "case_C15"
 MISMATCHES = "mismatches_C15"
 VIOLATIONS = "violations_C15"
-KNOWN = "known_C15"
+KNOWN = None
 SHARD = 40
 RULE = ("option-oriented seeded random pairs of the C13 universe with dry_run (40%), deep (40%), exclude patterns (45%), "
         "selection by job / id (45%), parallel in {False, 2, True} (30%) x entry point (Project.sync, sync_projects, Job.sync, "
         "sync_jobs); every dry run is accompanied by the same call with dry_run=False on a fresh copy of the pair, every "
         "parallel run by the sequential one; plus the one-file core x deep x dry_run and the one-key document core under "
-        "dry_run; plus deep trees whose intermediate levels are identical (difference 3-5 levels down, also equal size and mtime, x deep) and stale '<document>~' backup files next to the destination document; and a ByKey() instance the caller reuses after a call that raised DocumentSyncConflict; quick samples the cores.  non-trivial: the call or its companion changed the destination or raised; distinct "
+        "dry_run; plus deep trees whose intermediate levels are identical (difference 3-5 levels down, also equal size and mtime, x deep) and stale '<document>~' backup files next to the destination document; excluded names inside cloned jobs / left-only directories / as directory names / matching signac's own files (exclude None, str, list), and a ByKey() instance the caller reuses after a call that raised DocumentSyncConflict; quick samples the cores.  non-trivial: the call or its companion changed the destination or raised; distinct "
         "by the JSON of the scenario")
 TRUSTED = [
     "float.__repr__ as an oracle table (documents); re.match outcomes for exclude patterns / regex key strategies as tables "
@@ -37,7 +37,12 @@ def gen_inputs(tier, rng):
     if tier == "quick":
         files, docs = rng.sample(files, 120), rng.sample(docs, 80)
         nested, backup = rng.sample(nested, 50), rng.sample(backup, 40)
-    return descs + files + docs + nested + backup + sync_gen.core_reuse_cases((False, True))
+    return descs + files + docs + nested + backup + _excl(tier, rng) + sync_gen.core_reuse_cases((False, True))
+
+def _excl(tier, rng):
+    cases = sync_gen.core_exclude_cases((False, True))
+    return cases if tier != "quick" else rng.sample(cases, 160)
+
 
 def run_case(desc):
     return sync_gen.run_scenario(desc, PROP)
